@@ -12,7 +12,9 @@ package main
 import (
 	"context"
 	"encoding/json"
+	"errors"
 	"fmt"
+	"io/fs"
 	"os"
 	"os/exec"
 	"path/filepath"
@@ -24,7 +26,11 @@ import (
 	"github.com/tetratelabs/wazero"
 	"github.com/tetratelabs/wazero/api"
 	"github.com/tetratelabs/wazero/experimental"
+	experimentalsys "github.com/tetratelabs/wazero/experimental/sys"
+	expsysfs "github.com/tetratelabs/wazero/experimental/sysfs"
 	"github.com/tetratelabs/wazero/internal/verif/vsched"
+	"github.com/tetratelabs/wazero/internal/wasm"
+	"github.com/tetratelabs/wazero/sys"
 	"github.com/tetratelabs/wazero/verif/checks/c10/lib"
 	"github.com/tetratelabs/wazero/verif/fw"
 	"github.com/tetratelabs/wazero/verif/wb"
@@ -43,6 +49,9 @@ type Case struct {
 	Scn    Scenario `json:"scenario"`
 	Engine string   `json:"engine"`
 	Bound  int      `json:"bound"`
+	// Fault "fsclose": every guest module gets a preopened directory whose Close fails with EIO (a
+	// close-time I/O fault); closing must still release the instance's other resources exactly once.
+	Fault string `json:"fault,omitempty"`
 }
 
 // ---------------------------------------------------------------- one execution
@@ -58,6 +67,53 @@ type event struct {
 	target int // resolved module id for ref ops
 }
 
+// countingMem is an experimental.MemoryAllocator that records, per module, how often its linear
+// memory was allocated and freed (resources must be released exactly once, whoever closes).
+type countingMem struct{ allocs, frees *int }
+
+func (c countingMem) Allocate(cap, max uint64) experimental.LinearMemory {
+	*c.allocs++
+	return &countedBuf{c: c, buf: make([]byte, 0, cap)}
+}
+
+type countedBuf struct {
+	c   countingMem
+	buf []byte
+}
+
+func (b *countedBuf) Reallocate(size uint64) []byte {
+	if size > uint64(cap(b.buf)) {
+		nb := make([]byte, size)
+		copy(nb, b.buf)
+		b.buf = nb
+	}
+	b.buf = b.buf[:size]
+	return b.buf
+}
+func (b *countedBuf) Free() { *b.c.frees++ }
+
+// failCloseFS is a sys.FS whose root directory opens fine and whose Close fails with EIO.
+type failCloseFS struct {
+	experimentalsys.UnimplementedFS
+}
+
+func (failCloseFS) OpenFile(path string, flag experimentalsys.Oflag, perm fs.FileMode) (experimentalsys.File, experimentalsys.Errno) {
+	if path == "." || path == "" || path == "/" {
+		return &failCloseDir{}, 0
+	}
+	return nil, experimentalsys.ENOENT
+}
+
+type failCloseDir struct {
+	experimentalsys.UnimplementedFile
+}
+
+func (*failCloseDir) IsDir() (bool, experimentalsys.Errno) { return true, 0 }
+func (*failCloseDir) Stat() (sys.Stat_t, experimentalsys.Errno) {
+	return sys.Stat_t{Mode: fs.ModeDir | 0o755}, 0
+}
+func (*failCloseDir) Close() experimentalsys.Errno { return experimentalsys.EIO }
+
 type notifier struct{ n *int }
 
 // The callback is user code and may synchronise, so it is a scheduling point too: this opens the
@@ -68,7 +124,7 @@ func (c notifier) CloseNotify(ctx context.Context, exitCode uint32) {
 }
 
 var (
-	emptyBin = (&wb.Module{}).Encode()
+	emptyBin = (&wb.Module{Mem: &wb.Limits{Min: 1, Max: 2, HasMax: true}}).Encode() // has a memory: a resource to release
 	otherBin = func() []byte {
 		m := &wb.Module{}
 		m.ExportFunc("f", m.AddFunc(nil, []byte{wb.I32}, nil, (&wb.Asm{}).I32Const(1).B))
@@ -81,6 +137,9 @@ type execution struct {
 	mods     []api.Module // id -> module
 	modName  []string
 	notified []*int
+	allocs   []*int
+	frees    []*int
+	hasMem   []bool // guest modules have a linear memory, host modules do not
 	instOK   []bool
 	clock    int
 	sched    *vsched.Sched
@@ -109,22 +168,46 @@ func runOne(c Case, prefix []int) *execution {
 	}
 	x := &execution{}
 	newMod := func(name string) (int, context.Context) {
-		n := new(int)
+		n, a, f := new(int), new(int), new(int)
 		x.notified = append(x.notified, n)
+		x.allocs = append(x.allocs, a)
+		x.frees = append(x.frees, f)
 		x.mods = append(x.mods, nil)
 		x.modName = append(x.modName, name)
 		x.instOK = append(x.instOK, false)
-		return len(x.mods) - 1, experimental.WithCloseNotifier(ctx, notifier{n})
+		x.hasMem = append(x.hasMem, true)
+		cctx := experimental.WithCloseNotifier(ctx, notifier{n})
+		return len(x.mods) - 1, experimental.WithMemoryAllocator(cctx, countingMem{a, f})
+	}
+	modCfg := func(nm string) wazero.ModuleConfig {
+		mc := wazero.NewModuleConfig().WithName(nm)
+		if c.Fault == "fsclose" {
+			mc = mc.WithFSConfig(wazero.NewFSConfig().(expsysfs.FSConfig).WithSysFSMount(failCloseFS{}, "/"))
+		}
+		return mc
+	}
+	// touch forces the lazily opened preopen directory open, so that closing the module has a file to close.
+	touch := func(m api.Module) {
+		if c.Fault != "fsclose" {
+			return
+		}
+		if mi, ok := m.(*wasm.ModuleInstance); ok && mi.Sys != nil {
+			if e, ok := mi.Sys.FS().LookupFile(3); ok {
+				e.File.IsDir()
+			}
+		}
 	}
 	for _, nm := range c.Scn.Pre {
 		id, cctx := newMod(nm)
-		m, err := rt.InstantiateModule(cctx, compiled, wazero.NewModuleConfig().WithName(nm))
+		m, err := rt.InstantiateModule(cctx, compiled, modCfg(nm))
 		if err != nil {
 			fw.Fatalf("pre-instantiate %q: %v", nm, err)
 		}
+		touch(m)
 		x.mods[id], x.instOK[id] = m, true
 	}
 	npre := len(c.Scn.Pre)
+	_ = npre
 	resolveRef := func(ref string, mine int) int {
 		switch ref {
 		case "M0":
@@ -137,10 +220,10 @@ func runOne(c Case, prefix []int) *execution {
 		return -1
 	}
 	errStr := func(err error) string {
-		if err != nil {
+		if err != nil && !(c.Fault == "fsclose" && errors.Is(err, experimentalsys.EIO)) {
 			return "err"
 		}
-		return "ok"
+		return "ok" // in the fault variant Close may report the injected EIO; the registry effect is the same
 	}
 	do := func(ev *event, mine *int) {
 		defer func() {
@@ -156,8 +239,9 @@ func runOne(c Case, prefix []int) *execution {
 		case "inst":
 			id, cctx := newMod(o.Name)
 			ev.modID = id
-			m, err := rt.InstantiateModule(cctx, compiled, wazero.NewModuleConfig().WithName(o.Name))
+			m, err := rt.InstantiateModule(cctx, compiled, modCfg(o.Name))
 			if err == nil {
+				touch(m)
 				x.mods[id], x.instOK[id] = m, true
 				*mine = id
 			}
@@ -165,6 +249,7 @@ func runOne(c Case, prefix []int) *execution {
 		case "hostInst":
 			id, cctx := newMod(o.Name)
 			ev.modID = id
+			x.hasMem[id] = false
 			m, err := rt.NewHostModuleBuilder(o.Name).NewFunctionBuilder().WithFunc(func() {}).Export("f").Instantiate(cctx)
 			if err == nil {
 				x.mods[id], x.instOK[id] = m, true
@@ -268,6 +353,11 @@ func runOne(c Case, prefix []int) *execution {
 		}
 		if !ok && n > 1 {
 			x.final = append(x.final, fmt.Sprintf("notify-count=%d:failed-instantiate#%d", n, id))
+		}
+		if a, f := *x.allocs[id], *x.frees[id]; ok && x.hasMem[id] && (a != 1 || f != 1) {
+			x.final = append(x.final, fmt.Sprintf("memory-allocs=%d-frees=%d:module#%d(%q)", a, f, id, x.modName[id]))
+		} else if !ok && f > a {
+			x.final = append(x.final, fmt.Sprintf("memory-allocs=%d-frees=%d:failed-instantiate#%d", a, f, id))
 		}
 		if ok && !x.mods[id].IsClosed() {
 			x.final = append(x.final, fmt.Sprintf("open-after-runtime-close:module#%d", id))
@@ -703,6 +793,18 @@ func buildCases(run *fw.Run) []Case {
 				b = 4
 			}
 			cases = append(cases, Case{Scn: s, Engine: eng, Bound: b})
+			// close-time I/O fault variant for the scenarios in which something is closed
+			closes := len(s.Pre) > 0
+			for _, th := range s.Threads {
+				for _, o := range th {
+					if o.K == "close" || o.K == "closeCode" || o.K == "rtClose" || o.K == "rtCloseCode" {
+						closes = true
+					}
+				}
+			}
+			if closes && !strings.HasPrefix(s.Label, "gen") {
+				cases = append(cases, Case{Scn: s, Engine: eng, Bound: b, Fault: "fsclose"})
+			}
 		}
 	}
 	return cases
